@@ -6,6 +6,7 @@ package drivers
 // result goes to an NDJSON trace that TLC validates against TraceLifecycle.tla.
 
 import (
+	"errors"
 	"encoding/json"
 	"fmt"
 	"net"
@@ -106,6 +107,9 @@ func runLifecycleCase(c lcCase, tmp string) []map[string]interface{} {
 	var mu sync.Mutex
 	mkRunner := func() *ScriptedRunner {
 		sr := NewScriptedRunner(nil)
+		if c.Plan == "startfails" {
+			sr.StartErr = errors.New("scripted runner: cannot start")
+		}
 		sr.Script = func(r *ScriptedRunner) {
 			if c.LineDelay > 0 {
 				time.Sleep(time.Duration(c.LineDelay) * time.Millisecond)
